@@ -401,6 +401,31 @@ def template(rng: random.Random, family: str | None = None):
     return name, HEADER + "\n" + fn(rng)
 
 
+# ---------------------------------------------------------------------------------------------- corpus
+# minimal programs that always run first: the witnesses of the findings and one program per clause of the property
+CORPUS = [
+    ("corpus:window-beyond-base", "@proc\ndef foo(x: R[8]):\n    w = x[4:12]\n    pass\n"),
+    ("corpus:window-own-extent", "@proc\ndef foo(x: R[8], y: R[8]):\n    w = x[0:4]\n    y[0] = w[5]\n"),
+    ("corpus:window-own-extent-write", "@proc\ndef foo(x: R[8], y: R[8]):\n    w = x[0:4]\n    w[5] = y[0]\n"),
+    ("corpus:extern-arg-read", "@proc\ndef foo(x: R[8], y: R[8]):\n    x[0] = relu(y[8])\n"),
+    ("corpus:alias-by-name", "@proc\ndef sub(dst: [R][4]):\n    dst[3] = 1.0\n\n@proc\ndef foo(x: R[8]):\n    w = x[6:10]\n    sub(w)\n"),
+    ("corpus:window-alias-write-oob", "@proc\ndef foo(x: R[8]):\n    w = x[0:4]\n    w[100] = 1.0\n"),
+    ("corpus:off-by-one", "@proc\ndef foo(n: size, x: R[n]):\n    for i in seq(0, n):\n        x[i + 1] = 0.0\n"),
+    ("corpus:trip", "@proc\ndef foo(n: size, x: R[n]):\n    for i in seq(3, n):\n        x[i] = 0.0\n"),
+    ("corpus:trip-asserted", "@proc\ndef foo(n: size, x: R[n]):\n    assert n >= 3\n    for i in seq(3, n):\n        x[i] = 0.0\n"),
+    ("corpus:alloc", "@proc\ndef foo(n: size, x: R[n]):\n    t: R[n - 1]\n    pass\n"),
+    ("corpus:call-short-window", "@proc\ndef sub(dst: [R][4]):\n    dst[3] = 1.0\n\n@proc\ndef foo(x: R[8]):\n    sub(x[0:3])\n"),
+    ("corpus:call-size", "@proc\ndef sub(n: size, dst: [R][n]):\n    dst[0] = 1.0\n\n@proc\ndef foo(n: size, x: R[n]):\n    sub(n - 1, x[0:n - 1])\n"),
+    ("corpus:call-assert", "@proc\ndef sub(n: size, dst: [R][n]):\n    assert n >= 3\n    dst[2] = 1.0\n\n@proc\ndef foo(x: R[8]):\n    sub(2, x[0:2])\n"),
+    ("corpus:same-buffer-twice", "@proc\ndef sub(dst: [R][4], src: [R][4]):\n    dst[0] = src[0]\n\n@proc\ndef foo(x: R[8]):\n    sub(x[0:4], x[4:8])\n"),
+    ("corpus:safe", "@proc\ndef sub(n: size, dst: [R][n]):\n    for i in seq(0, n):\n        dst[i] = 0.0\n\n@proc\ndef foo(n: size, x: R[n], y: R[n]):\n    assert n >= 2\n    for i in seq(0, n - 1):\n        x[i + 1] = y[i] + 1.0\n    w = x[1:n]\n    w[0] += y[0]\n    t: R[n - 1]\n    sub(n - 1, x[0:n - 1])\n"),
+]
+
+
+def corpus():
+    return [(fam, HEADER + "\n" + src) for fam, src in CORPUS]
+
+
 # ---------------------------------------------------------------------------------------------- textual mutations
 _ACCESS = re.compile(r"\b([A-Za-z_]\w*)\[([^\[\]]*)\]")
 
